@@ -547,4 +547,6 @@ class JSONGrammar(BaseGrammar):
         self.__schema_builder.add_schema(
             state[f"_{self.__class__.__name__}__schema"], True
         )
+        # The required names are handled by _required_names.
+        self.__schema_builder.required.clear()
         self._defaults.update(cast("StrKeyMapping", state.pop("defaults")))
